@@ -7,11 +7,16 @@ of every input class, calls the real ConfigValidator and logs small observation 
 flags computed from the real values).  ConfigTypesTrace.tla checks every record against Judge.
 Section-level lines check completeness / unknown keys / provided keys / "spec never modified";
 time lines call Util.string_to_ms / string_to_secs directly for every suffix.
+NEAR-MISS inputs (classes nm_<base>_<mutation>, near_miss generator below): every prefix / suffix / length / alphabet mutant
+of a valid representative of each string-parsed value type (hex and named colours, "r, g, b", numbers, booleans, times, enum
+members, device names, hex bytes, gains, powers of two, tokens) is fed to the validators whose grammar it belongs to, and to
+the time functions directly; the returned colour VALUES are logged (cc / kc) and judged by ColourOK / KivyOK in the trace spec.
 """
 import copy
 import logging
 import math
 import random
+import re
 from fractions import Fraction
 
 from lib import tlc, harness
@@ -36,8 +41,16 @@ SCALAR_CLASSES = (
     'enum_member', 'enum_member_upper', 'enum_nonmember', 'dev_name', 'dev_unknown',
     'hex_str', 'color_name', 'color_hex', 'csv_int3', 'csv_int4', 'gain_db_str',
 ) + TIME_CLASSES
+# near-miss classes nm_<base>_<mutation> (NearMiss in ConfigTypes.tla): one mutation of a valid representative of a
+# string-parsed value type that leaves the grammar of the base
+NM_BASES = ('hex6', 'hex8', 'cname', 'csv3', 'int', 'float', 'bool', 'time', 'enum', 'dev', 'hexb', 'gaindb', 'pow2', 'tok')
+NM_MUTS = ('pre', 'suf', 'long', 'short', 'sub')
+NM_CLASSES = tuple('nm_%s_%s' % (b, mu) for b in NM_BASES for mu in NM_MUTS)
+NM_ELEM = ('nm_hex6_long', 'nm_int_suf', 'nm_time_suf', 'nm_enum_suf')
+NM_MAX_VARIANTS = 5
+SCALAR_CLASSES = SCALAR_CLASSES + NM_CLASSES
 ELEM_CLASSES = ('none', 'empty_str', 'true', 'int_pos', 'int_neg', 'float_frac', 'num_str_int', 'garbage_str',
-                'bool_true_str', 't_s_l_w', 'enum_member', 'enum_nonmember', 'dev_name', 'token_str', 'float_nan')
+                'bool_true_str', 't_s_l_w', 'enum_member', 'enum_nonmember', 'dev_name', 'token_str', 'float_nan') + NM_ELEM
 CONTAINER_SHAPES = ('list2', 'nested', 'list_empty', 'csv', 'dict_str', 'dict_int', 'dict_numstr', 'dict_dev', 'tuple3')
 ITEM_TYPES = ('single', 'list', 'set', 'dict', 'event_handler')
 VCLASSES = ('str', 'lstr', 'int', 'float', 'num', 'bool', 'bool_int', 'ms', 'secs', 'enum', 'machine', 'subconfig',
@@ -171,10 +184,19 @@ def num_value(x):
     return None
 
 
-def draw_scalar(cls, info, rnd, m):
-    """Return (value, meta) for scalar class cls in the context of validator info; raise Skip if n/a."""
+def draw_scalar(cls, info, rnd, m, var=None):
+    """Return (value, meta) for scalar class cls in the context of validator info; raise Skip if n/a.
+    var: index of the mutant for near-miss classes (None = a random one)."""
     rg = _range_of(info)
     meta = {}
+    if cls.startswith('nm_'):
+        _, base, mut = cls.split('_')
+        if base not in nm_relevant_bases(info):
+            raise Skip()
+        vs = nm_variants(base, mut, info, rnd, m)
+        if not vs or (var is not None and var >= len(vs)):
+            raise Skip()
+        return (rnd.choice(vs) if var is None else vs[var]), meta
     if cls == 'none':
         return None, meta
     if cls == 'none_str':
@@ -306,23 +328,181 @@ def draw_scalar(cls, info, rnd, m):
     raise KeyError(cls)
 
 
+# ----------------------------------------------------------------------------------------------
+# near-miss generator: prefix / suffix / length / alphabet mutation of a valid representative of every string-parsed type
+# ----------------------------------------------------------------------------------------------
+# bases whose near-misses are meaningful for a validator class (a near-miss of a colour is plain garbage for a bool
+# validator: garbage_str covers that); 'tok' is added for *_or_token validators
+NM_RELEVANT = {
+    'color': ('hex6', 'hex8', 'cname', 'csv3'), 'kivycolor': ('hex6', 'hex8', 'cname', 'csv3'),
+    'int': ('int',), 'float': ('float', 'int'), 'num': ('int', 'float'), 'template_int': ('int',), 'template_float': ('float',),
+    'bool': ('bool',), 'bool_int': ('bool',), 'template_bool': ('bool',),
+    'ms': ('time', 'int', 'float'), 'secs': ('time', 'int', 'float'), 'template_ms': ('time',), 'template_secs': ('time',),
+    'enum': ('enum',), 'machine': ('dev',), 'int_from_hex': ('hexb',), 'gain': ('gaindb', 'float'), 'pow2': ('pow2', 'int'),
+}
+BOOL_WORDS = frozenset(x.lower() for x in TRUE_STR + FALSE_STR)
+_NM_NUM = re.compile(r'^\s*[+-]?(\d[\d_]*\.?[\d_]*|\.\d[\d_]*)([eE][+-]?\d+)?\s*$')
+_NM_TIME = re.compile(r'^\s*[+-]?(\d[\d_]*\.?[\d_]*|\.\d[\d_]*)([eE][+-]?\d+)?\s*(msec|ms|sec|s|m|h|d)\s*$', re.I)
+_NM_HEXCOL = re.compile(r'^[0-9a-fA-F]{6}$|^[0-9a-fA-F]{8}$')
+_NAMED = {}
+
+
+def nm_relevant_bases(info):
+    return NM_RELEVANT.get(info['vc'], ()) + (('tok',) if info.get('tok') else ())
+
+
+def denotes_value(s):
+    """Recogniser of the driver's own (deliberately generous, not mpf's): does s denote a number, a time, a boolean, None?"""
+    low = s.strip().lower()
+    return bool(_NM_NUM.match(s) or _NM_TIME.match(s) or low in BOOL_WORDS or low in ('', 'none')
+                or low.lstrip('+-.') in ('inf', 'infinity', 'nan'))
+
+
+def _named_colors():
+    if not _NAMED:
+        from mpf.core.rgb_color import NAMED_RGB_COLORS
+        _NAMED.update({str(k).lower(): 1 for k in NAMED_RGB_COLORS})
+    return _NAMED
+
+
+def time_mutants(num, suf, mut):
+    """Near-miss mutants of the time string num+suf (suf '' = a bare number)."""
+    s = num + suf
+    if mut == 'pre':
+        vs = ['x' + s, suf + num if suf else '#' + s]
+    elif mut == 'suf':
+        vs = [s + 'x', s + '2' if suf else s + '%', s + '.' if suf else s + '-']
+    elif mut == 'long':
+        vs = [s + s[-1], s + 'm', s + 'ec'] if suf else [num.replace('.', '..') if '.' in num else num + '..', '--' + num]
+    elif mut == 'short':
+        vs = [suf, s[:-1]] if suf else ['-', '.']
+    else:
+        vs = [num[0] + 'x' + num[1:] + suf, num + '-' + suf if suf else num[:-1] + 'x']
+    out = []
+    for v in vs:
+        if v and not denotes_value(v) and v not in out:
+            out.append(v)
+    return out
+
+
+def nm_variants(base, mut, info, rnd, m):
+    """All mutants of kind mut of ONE random valid representative of base, none of which is a value of the base type
+    (checked with the recognisers above / the enum list / the device collection of the spec string)."""
+    vs = []
+    check = denotes_value
+    if base == 'hex6':
+        s = rnd.choice(('ff0000', '255000', 'deadbe', '00FF7f', 'aabbcc', '%06x' % rnd.randrange(1 << 24)))
+        vs = {'pre': ['#' + s, 'x' + s, '0x' + s, '-' + s],
+              'suf': [s + '-f2s', s + 'zz', s + 'xyz', s + '!'],
+              'long': [s + s[-1], s + s[:3], s + s[:4], s + s],            # 7, 9, 10, 12 hex digits
+              'short': [s[:5], s[:4], s[:3]],
+              'sub': ['g' + s[1:], s[:3] + 'x' + s[4:], s[:5] + 'z']}[mut]
+        check = _NM_HEXCOL.match
+    elif base == 'hex8':
+        s = rnd.choice(('ff0000ff', '19191980', 'DEADBEEF', '%08x' % rnd.randrange(1 << 32)))
+        vs = {'pre': ['#' + s, 'x' + s],
+              'suf': [s + 'zz', s + '-f2s', s + '!'],
+              'long': [s + s[-1], s + s[:2], s + s[:4]],                   # 9, 10, 12 hex digits
+              'short': [s[:7]],
+              'sub': ['g' + s[1:], s[:7] + 'z']}[mut]
+        check = _NM_HEXCOL.match
+    elif base == 'cname':
+        s = rnd.choice(('red', 'blue', 'aliceblue', 'orange', 'white'))
+        vs = {'pre': ['x' + s, '#' + s], 'suf': [s + 'x', s + '2', s + '-ish'], 'long': [s + s[-1], s[0] + s],
+              'short': [s[:-1], s[1:]], 'sub': [s[:-1] + '#', '_' + s[1:]]}[mut]
+        named = _named_colors()
+        check = lambda v: v.lower() in named or _NM_HEXCOL.match(v)        # noqa: E731
+    elif base == 'csv3':
+        c = [str(rnd.randint(100, 255)), str(rnd.randint(0, 255)), str(rnd.randint(0, 255))]
+        j = ', '.join(c)
+        vs = {'pre': ['x' + j, '-' + j, '#' + j],
+              'suf': [j + 'x', j + ' px', j + '.5'],
+              'long': [j + ', 0', j + ', 0, 0', c[0][0] + j],               # 4 / 5 elements, a component one digit too long
+              'short': [', '.join(c[:2]), '%03d%03d%03d' % tuple(int(x) for x in c), ' '.join(c)],
+              'sub': ['; '.join(c), c[0] + ', x, ' + c[2], c[0] + ',, ' + c[2]]}[mut]
+        check = lambda v: False                                            # noqa: E731
+    elif base == 'int':
+        s = str(rnd.choice((1, -1)) * rnd.randint(1, 90))
+        vs = {'pre': ['a' + s, 'x' + s, '#' + s], 'suf': [s + 'a', s + 'x', s + '-', s + '%'],
+              'long': ['--' + s.lstrip('-'), s + '..'], 'short': ['-'],
+              'sub': [s[:-1] + 'x', s[0] + 'l' + s[1:]]}[mut]
+    elif base == 'float':
+        s = '%d.%s' % (rnd.randint(1, 90), rnd.choice(('2', '25', '5', '75')))
+        vs = {'pre': ['x' + s, 'a' + s], 'suf': [s + 'x', s + '.3', s + 'f'], 'long': [s.replace('.', '..')], 'short': ['.'],
+              'sub': [s.replace('.', ':'), s.replace('.', 'x')]}[mut]
+    elif base == 'bool':
+        s = rnd.choice(TRUE_STR + FALSE_STR)
+        vs = {'pre': ['x' + s, 'un' + s], 'suf': [s + 'x', s + '1', s + '!'], 'long': [s + s[-1]], 'short': [s[:-1]],
+              'sub': [s[:-1] + 'x', '_' + s[1:]]}[mut]
+    elif base == 'time':
+        suf = rnd.choice(SUFFIXES)
+        num = rnd.choice((str(rnd.randint(10, 200)), '%d.5' % rnd.randint(1, 20)))
+        if suf in ('ms', 'msec'):
+            num = str(rnd.randint(10, 200))
+        return time_mutants(num, suf.upper() if rnd.random() < 0.3 else suf, mut)
+    elif base == 'enum':
+        members = [x for x in (info.get('enum') or []) if x and x != 'none']
+        if not members:
+            return []
+        e = rnd.choice(members)
+        vs = {'pre': ['x' + e, '_' + e], 'suf': [e + 'x', e + '_'], 'long': [e + e[-1]], 'short': [e[:-1]], 'sub': [e[:-1] + '#']}[mut]
+        allowed = set(info['enum'])
+        check = lambda v: v.lower() in allowed or v.lower() in ('', 'none')  # noqa: E731
+    elif base == 'dev':
+        coll = getattr(m, info['coll'], None) if info.get('coll') else None
+        names = sorted(coll.keys()) if coll is not None and hasattr(coll, 'keys') else []
+        if not names:
+            return []
+        e = rnd.choice(names)
+        vs = {'pre': ['x' + e, '_' + e], 'suf': [e + 'x', e + '_'], 'long': [e + e[-1]], 'short': [e[:-1]], 'sub': [e[:-1] + '#']}[mut]
+        check = lambda v: v in names or v.lower() in ('', 'none')           # noqa: E731
+    elif base == 'hexb':
+        s = rnd.choice(('ff', '1A', 'c0', '0e', 'Fe'))
+        vs = {'pre': ['x' + s, '#' + s], 'suf': [s + 'x', s + 'g', s + 'h'], 'long': [], 'short': [],
+              'sub': ['g' + s[1:], s[0] + 'z']}[mut]
+        check = lambda v: False                                            # noqa: E731
+    elif base == 'gaindb':
+        s = rnd.choice(('-3db', '-6.5 dB', '0db', '-12DB'))
+        vs = {'pre': ['x' + s], 'suf': [s + 'x'], 'long': [s + 'b'], 'short': [s[:-1]], 'sub': ['-3.5.2db', '--3db']}[mut]
+    elif base == 'pow2':
+        s = rnd.choice(('2', '16', '64', '128'))
+        vs = {'pre': ['x' + s], 'suf': [s + 'x', s + '!'], 'long': [], 'short': [], 'sub': [s[:-1] + 'x']}[mut]
+    elif base == 'tok':
+        t = '(tok_%s)' % rnd.choice('abc')
+        vs = {'pre': ['x' + t], 'suf': [t + 'x'], 'long': [], 'short': [t[:-1], t[1:]], 'sub': ['[' + t[1:], t[:-1] + ']']}[mut]
+    out = []
+    for v in vs:
+        if v and not check(v) and v not in out:
+            out.append(v)
+    return out[:NM_MAX_VARIANTS]
+
+
+def nm_base(ec):
+    """'nm_hex6_long' -> 'hex6' (None for the other classes)."""
+    return ec.split('_')[1] if isinstance(ec, str) and ec.startswith('nm_') else None
+
+
 def str_form(x):
     """How an element is written inside a comma separated string."""
     return str(x)
 
 
-def draw_input(shape, ec, key, rnd, m):
+def draw_input(shape, ec, key, rnd, m, var=None):
     """Build the concrete input value for class (shape, ec).  Returns (value, elems, flat) where elems is the list of
     (elem value, meta) the class decomposes into (for relation flags), or None when the decomposition is opaque;
     flat = the scalar representatives the value was built from (for the relation to the declared range)."""
-    r = _draw_input(shape, ec, key, rnd, m)
+    r = _draw_input(shape, ec, key, rnd, m, var)
     return r if len(r) == 3 else (r[0], r[1], r[1])
 
 
-def _draw_input(shape, ec, key, rnd, m):
+def _draw_input(shape, ec, key, rnd, m, var=None):
     info = key['v']
     if shape == 'scalar':
-        v, meta = draw_scalar(ec, info, rnd, m)
+        if ec.startswith('nm_'):
+            # a whole item that is no dict / an event name: nothing of the value type is parsed
+            if key['it'] in ('dict', 'event_handler') or (nm_base(ec) == 'csv3' and key['it'] != 'single'):
+                raise Skip()
+        v, meta = draw_scalar(ec, info, rnd, m, var)
         if ec in ('csv_int3', 'csv_int4') and key['it'] in ('list', 'set'):
             return v, [(x.strip(), {}) for x in v.split(',')]
         return v, [(v, meta)]
@@ -481,11 +661,37 @@ def elem_flags(info, inp, res, m, cv):
     return f
 
 
+CLAMP = 10 ** 9          # TLC integers are 32 bit: clamping keeps "outside 0..255"
+
+
+def _clamp(x):
+    return max(-CLAMP, min(CLAMP, int(x)))
+
+
+def colour_components(vc, results):
+    """The returned colour VALUES, for ConfigTypesTrace to judge (ColourOK / KivyOK): one list of ints per result; a result
+    that is not a sequence of numbers gives [] (never a colour)."""
+    out = []
+    for r in results:
+        comps = []
+        if vc == 'color' and isinstance(r, (tuple, list)) and all(type(c) is int for c in r):
+            comps = [_clamp(c) for c in r]
+        elif vc == 'kivycolor' and isinstance(r, (tuple, list)) and all(
+                isinstance(c, (int, float)) and not isinstance(c, bool) and not (isinstance(c, float) and (math.isnan(c) or math.isinf(c)))
+                for c in r):
+            comps = [_clamp(round(c * 1000)) for c in r]
+        out.append(comps)
+    return out
+
+
 def observe(key, value, elems, res, m, cv):
     """Observation record for an accepted result."""
     it = key['it']
     info = key['v']
     o = {'ty': tname(res), 'ety': [], 'kty': [], 'n': -1, 'inr': True, 'f': [], 'vm': [], 'rms': [], 'suf': ''}
+    if info['vc'] in ('color', 'kivycolor'):
+        results = [res] if it == 'single' else (list(res.values()) if isinstance(res, dict) else (list(res) if isinstance(res, (list, set)) else []))
+        o['cc' if info['vc'] == 'color' else 'kc'] = colour_components(info['vc'], results)
     pairs = None          # list of (input elem, meta, result elem, key result or None)
     if it == 'single':
         inp = elems[0][0] if elems else value
@@ -636,7 +842,7 @@ def none_ok(info):
     return True
 
 
-def exec_case(cv, m, path, k, key, shape, ec, rnd):
+def exec_case(cv, m, path, k, key, shape, ec, rnd, var=None):
     """Run one case on the real validator; returns the trace line (dict) or None if the class has no representative."""
     info = key['v']
     line = {'op': 'item', 'it': key['it'], 'vc': info['vc'], 'tok': bool(info['tok']), 'rg': _range_of(info) is not None,
@@ -655,7 +861,7 @@ def exec_case(cv, m, path, k, key, shape, ec, rnd):
                 elems = None
             flat = elems
         else:
-            value, elems, flat = draw_input(shape, ec, key, rnd, m)
+            value, elems, flat = draw_input(shape, ec, key, rnd, m, var)
     except Skip:
         return None, None
     line['ir'] = irel_of(key, flat) if flat is not None else 'na'
@@ -681,8 +887,12 @@ def exec_case(cv, m, path, k, key, shape, ec, rnd):
     return line, {'in': shown, 'res': repr(res)[:80]}
 
 
+def _freeze(v):
+    return tuple(_freeze(x) for x in v) if isinstance(v, list) else v
+
+
 def _lkey(line):
-    return tuple((k, tuple(v) if isinstance(v, list) else v) for k, v in sorted(line.items()) if k not in ('k', 'nn'))
+    return tuple((k, _freeze(v)) for k, v in sorted(line.items()) if k not in ('k', 'nn'))
 
 
 def good_value(key, m, rnd):
@@ -816,12 +1026,27 @@ def _exec_section(seed, reps, sec):
             stats['unclassified'].append('%s:%s=%s' % (':'.join(path), k, '|'.join(sp)))
             continue
         stats['keys'] += 1
+        nmrel = nm_relevant_bases(key['v'])
         for shape, ec in classes:
-            for rep in range(1 if shape in ('default', 'empty_list', 'empty_dict') or ec in ('none', 'empty_str') and shape == 'scalar' else reps):
+            nm = nm_base(ec)
+            if nm is not None and nm not in nmrel:
+                continue
+            nrep = 1 if shape in ('default', 'empty_list', 'empty_dict') or ec in ('none', 'empty_str') and shape == 'scalar' else reps
+            if nm is not None and shape == 'scalar':
+                # EVERY mutant of the class (of a fresh random representative each), thorough: of several representatives
+                nrep = NM_MAX_VARIANTS * (1 if reps == 1 else 3)
+            for rep in range(nrep):
                 rnd = random.Random('%d|%s|%s|%s|%s|%d' % (seed, ':'.join(path), k, shape, ec, rep))
-                line, note = exec_case(cv, m, path, k, key, shape, ec, rnd)
+                var = rep % NM_MAX_VARIANTS if nm is not None and shape == 'scalar' else None
+                line, note = exec_case(cv, m, path, k, key, shape, ec, rnd, var)
                 if line is None:
+                    if var is not None and var > 0:
+                        continue
                     break
+                if nm is not None:
+                    stats['nm_calls'] = stats.get('nm_calls', 0) + 1
+                    if line['o'] == 'accept':
+                        stats['nm_accept'] = stats.get('nm_accept', 0) + 1
                 stats['calls'] += 1
                 stats[line['o']] = stats.get(line['o'], 0) + 1
                 if line['o'] == 'unclean':
@@ -900,6 +1125,39 @@ def time_traces(seed, quick):
     return traces
 
 
+def time_nm_traces(seed, quick):
+    """Near-miss time strings given to Util.string_to_ms / string_to_secs directly (one single-line trace per call): every
+    mutation kind of a valid representative of every unit suffix (and of a bare number)."""
+    from mpf.core.utility_functions import Util
+    rnd = random.Random('%d|timenm' % seed)
+    traces = []
+    for fn in ('ms', 'secs'):
+        f = Util.string_to_ms if fn == 'ms' else Util.string_to_secs
+        for suf in SUFFIXES + ('',):
+            for up in ((False, True) if suf else (False,)):
+                nums = [str(rnd.randint(1, 200)), '100']
+                if suf not in ('ms', 'msec') and not (suf == '' and fn == 'ms'):
+                    nums.append('%d.5' % rnd.randint(1, 20))
+                if not quick:
+                    nums += [str(rnd.randint(1, 5000)) for _ in range(6)]
+                for num in nums:
+                    for mut in NM_MUTS:
+                        for s in time_mutants(num, suf.upper() if up else suf, mut):
+                            line = {'op': 'timenm', 'fn': fn, 'suf': suf, 'mut': mut, 'o': 'reject'}
+                            try:
+                                r = f(s)
+                                line['o'] = 'accept'
+                                shown = repr(r)
+                            except CLEAN as ex:
+                                shown = type(ex).__name__ + ': ' + str(ex)[:80]
+                            except Exception as ex:  # pylint: disable=broad-except
+                                line['o'] = 'unclean'
+                                shown = type(ex).__name__ + ': ' + str(ex)[:80]
+                            traces.append({'sec': 'timenm', 'ev': [line], '_ex': [{'in': s, 'res': shown, 'key': 'Util.string_to_' + fn}],
+                                           '_stats': {}, '_notes': []})
+    return traces
+
+
 # ----------------------------------------------------------------------------------------------
 # the check
 # ----------------------------------------------------------------------------------------------
@@ -910,6 +1168,8 @@ INVARIANT Total
 INVARIANT Consistent
 INVARIANT TimeSemantics
 INVARIANT SectionRules
+INVARIANT ColourSound
+INVARIANT NearMissSound
 CHECK_DEADLOCK FALSE
 """
 TRACE_CFG = """SPECIFICATION TSpec
@@ -934,11 +1194,19 @@ def signature(line):
         if line['o'] != 'accept':
             return 'C12:time:%s-suffix' % suf
         return 'C12:time:truncation' if abs(line['rms'] - _expected_ms(line)) <= 1 else 'C12:time:%s-value' % suf
+    if op == 'timenm':
+        return 'C12:nearmiss:time:%s-suffix' % (line['suf'] or 'bare')
     if op == 'section':
         return 'C12:section:%s' % line['mode']
     if op in ('spec', 'built'):
         return 'C12:spec-mutated'
     if op == 'item':
+        nm = nm_base(line['ec'])
+        if line['vc'] == 'color' and line['o'] == 'accept' and not _colour_ok(line.get('cc')):
+            # returned colour outside 0..255 / not a triple; by the syntax of the input it was parsed from
+            return 'C12:range:color:%s' % (nm or line['ec'])
+        if nm is not None and line['vc'] != 'kivycolor':
+            return 'C12:nearmiss:%s:%s' % (line['vc'], nm)
         if line['vc'] == 'enum' and not line['nok'] and 'NoneType' in [line['ty']] + list(line['ety']):
             return 'C12:type:enum-none'
         if line['ir'] == 'nan' or (not line['inr'] and line['ec'] in ('float_nan', 'nan_str')):
@@ -949,8 +1217,26 @@ def signature(line):
     return 'C12:%s' % op
 
 
+def _colour_ok(cc):
+    """(only used to LABEL a rejected line; the judgement is ColourOK in ConfigTypesTrace)"""
+    return bool(cc) and all(len(c) == 3 and all(0 <= x <= 255 for x in c) for c in cc)
+
+
 def _describe(line, ex):
     op = line.get('op')
+    if op == 'timenm':
+        return ('Util.string_to_%s(%r) -> %s: a near-miss (%s-mutation of a valid "<number>%s" time string) is not a time string; '
+                'it must be rejected, not evaluated' % (line['fn'], ex.get('in'), ex.get('res'), line['mut'], line['suf']))
+    if op == 'item' and line['vc'] == 'color' and line['o'] == 'accept' and not _colour_ok(line.get('cc')):
+        return ('%s: spec "%s" input class %s/%s value %s -> %s: the colour validator returned components %s; a colour is an RGB '
+                'triple with every component within 0..255 (or the value is rejected)' % (
+                    ex.get('key'), ex.get('spec'), line['sh'], line['ec'], ex.get('in'), ex.get('res'), line.get('cc')))
+    if op == 'item' and nm_base(line['ec']) is not None:
+        return ('%s: spec "%s" near-miss input %s/%s value %s -> %s (type %s elems %s flags=%s): the input is a mutated %s and '
+                'denotes no value of the declared type: numeric / time / boolean / pow2 / enum / device validators must reject it, '
+                'the others may only return a well-typed in-range value related to the input' % (
+                    ex.get('key'), ex.get('spec'), line['sh'], line['ec'], ex.get('in'), ex.get('res'), line['ty'], line['ety'],
+                    line['f'], nm_base(line['ec'])))
     if op == 'time':
         return ('Util.string_to_%s(%r) -> %s; value * unit = %d ms expected (%r is an accepted unit suffix)' % (
             line['fn'], ex.get('in'), ex.get('res'), _expected_ms(line), line['suf']))
@@ -971,14 +1257,16 @@ def run(ctx):
     r = tlc.expect_ok(tlc.check(wd, 'ConfigTypes', 'MC.cfg', timeout=600, extra=('-nowarning',)), 'ConfigTypes design check')
     ctx.add_tlc('ConfigTypes (case table)', r, {'item_types': len(ITEM_TYPES), 'validator_classes': len(VCLASSES),
                                                  'input_classes': len(all_input_classes()), 'time_vals': tvals})
-    ctx.coverage['monitors'] += ['Total', 'Consistent', 'TimeSemantics', 'SectionRules', 'UnitTable(ASSUME)',
-                                 'ItemOK', 'TimeLineOK', 'SectionOK', 'spec-unchanged']
+    ctx.coverage['monitors'] += ['Total', 'Consistent', 'TimeSemantics', 'SectionRules', 'ColourSound', 'NearMissSound',
+                                 'UnitTable(ASSUME)', 'ItemOK', 'ColourOK', 'KivyOK', 'TimeLineOK', 'TimeNMOK', 'SectionOK',
+                                 'spec-unchanged']
     m = _machine()
     spec = m.config_validator.get_config_spec()
     secs = [s for s in sorted(spec) if isinstance(spec[s], dict) and not s.startswith('_')]
     reps = 1 if ctx.quick else 6
     traces = harness.pmap(exec_section, [(ctx.seed, reps, s) for s in secs], chunk=2, item_timeout=600)
     ttraces = time_traces(ctx.seed, ctx.quick)
+    ntraces = time_nm_traces(ctx.seed, ctx.quick)
     for t in traces:
         if t['ev'] and t['ev'][0].get('op') == 'crash':
             raise Machinery('section %s crashed in the harness: %s\n%s' % (t['sec'], t['ev'][0], t.get('_tb')))
@@ -1000,8 +1288,8 @@ def run(ctx):
     nlines = sum(len(t['ev']) for t in traces)
     ctx.log('executed %d validator calls on %d keys of %d sections (%d distinct observation lines); %d time calls' % (
         tot.get('calls', 0), tot.get('keys', 0), len(secs), nlines, len(ttraces)))
-    if tot.get('keys', 0) < 1500 or tot.get('accept', 0) < 10000:
-        raise Machinery('vacuous coverage: %s' % tot)
+    if tot.get('keys', 0) < 1500 or tot.get('accept', 0) < 10000 or tot.get('nm_calls', 0) < 5000 or len(ntraces) < 300:
+        raise Machinery('vacuous coverage: %s, %d near-miss time calls' % (tot, len(ntraces)))
 
     found = []          # (line, example)
     v1 = tlc.validate_traces(wd, 'ConfigTypesTrace', 'Trace.cfg', traces, diagnose=False, batch=60, workers=8)
@@ -1027,6 +1315,10 @@ def run(ctx):
     ctx.add_trace_verdict('time table (Util.string_to_ms / string_to_secs)', v3, len(ttraces))
     for j in sorted(v3.rejected):
         found.append((ttraces[j]['ev'][0], ttraces[j]['_ex'][0]))
+    v4 = tlc.validate_traces(wd, 'ConfigTypesTrace', 'Trace.cfg', ntraces, diagnose=False, batch=6000, workers=8)
+    ctx.add_trace_verdict('near-miss time strings (Util.string_to_ms / string_to_secs)', v4, len(ntraces))
+    for j in sorted(v4.rejected):
+        found.append((ntraces[j]['ev'][0], ntraces[j]['_ex'][0]))
 
     by_sig = {}
     for ln, ex in found:
@@ -1042,6 +1334,9 @@ def run(ctx):
     ctx.coverage['sections'] = len(secs)
     ctx.coverage['distinct_observation_lines'] = nlines
     ctx.coverage['time_calls'] = len(ttraces)
+    ctx.coverage['near_miss'] = {'classes': len(NM_CLASSES), 'validator_calls': tot.get('nm_calls', 0),
+                                 'accepted': tot.get('nm_accept', 0), 'time_calls': len(ntraces),
+                                 'time_rejected': sum(1 for t in ntraces if t['ev'][0]['o'] != 'accept')}
     ctx.coverage['unclean_rejections'] = dict(sorted(unclean.items(), key=lambda kv: -kv[1])[:60])
     ctx.coverage['unclean_rejections_total'] = sum(unclean.values())
     ctx.coverage['default_rejected'] = sorted({d for t in traces for d in t['_stats'].get('default_rejected', [])})
@@ -1065,7 +1360,10 @@ def run(ctx):
         'not violations',
         'python tuples are outside the YAML-representable domain: executed, but unconstrained by Judge',
         'None / "None" returning None is accepted for every validator (optional keys)',
-        'device-specific cross-key validation and _-prefixed keys are not covered']
+        'device-specific cross-key validation and _-prefixed keys are not covered',
+        'near-miss inputs (nm_<base>_<mutation>) are generated only for the validator classes whose grammar the base belongs to; '
+        'mutants that still denote a value for the driver\'s own (generous) recognisers - digits with underscores, a trailing '
+        'decimal point, exponents, surrounding blanks - are left out']
 
 
 def replay(ctx, data):
@@ -1073,7 +1371,7 @@ def replay(ctx, data):
     ln, ex = d['line'], d['example']
     print('signature line:', ln)
     print('example:', ex)
-    if ln.get('op') == 'time':
+    if ln.get('op') in ('time', 'timenm'):
         from mpf.core.utility_functions import Util
         f = Util.string_to_ms if ln['fn'] == 'ms' else Util.string_to_secs
         try:
